@@ -226,6 +226,8 @@ class World:
         """ping round trip on the witness; in the multiplex server this is served only after the current batch
         of events (including any cleanup) has been completed. With COMMTIMEOUT on the thread server the witness
         itself times out when idle, so it is re-opened on demand."""
+        if not self.srv.loop_alive():
+            return False
         for attempt in (0, 1):
             self.witness_seq = (self.witness_seq + 1) & 0xFFFF
             err = self.witness.send(rd.ping_msg(seq=self.witness_seq))
@@ -352,11 +354,16 @@ def run_case(world, case):
             valid = False
         return m
 
+    def rw():
+        # how long a client waits for an answer: once something expected did not come in this run (it is repeated /
+        # judged failing anyway) or the daemon's loop has died, do not wait long again
+        return WAIT if valid and not stalled[0] and w.srv.loop_alive() else 0.1
+
     def expect_eof(c, timeout=WAIT):
         cl = clients[c]
         if cl.closed:
             return False
-        ok = cl.expect_eof(timeout)
+        ok = cl.expect_eof(min(timeout, rw()))
         if ok:
             cl._saw_eof = True
         return ok
@@ -429,6 +436,10 @@ def run_case(world, case):
 
     for ev in case["events"]:
         kind = ev[0]
+        if not w.srv.loop_alive():
+            stalled[0] = True         # the daemon's request loop is gone: nothing more can be played (reported by the oracle)
+            stall_where.append("loop-dead@%d" % len(steps))
+            break
         idle_guard()
         watch["live"], watch["kind"], watch["t0"] = live(), kind, time.time()
         if kind in ("req", "raise", "end") and ev[1] not in accepted:
@@ -463,7 +474,7 @@ def run_case(world, case):
                     if m != "TIMEOUT" or w.dead_workers() > 0:
                         break
             else:
-                m = cl.recv_msg()
+                m = cl.recv_msg(timeout=rw())
             if m == "TIMEOUT" and gated and w.dead_workers() > 0:
                 pass        # not a slow run: the worker the connection was given to has terminated; a genuine observation
             else:
@@ -482,7 +493,7 @@ def run_case(world, case):
             w.ctor_res = ev[5] if len(ev) > 5 else None
             cl = clients[c]
             cl.send(request_bytes(tgt, act, r, nextseq(c)))
-            m = got_reply(cl.recv_msg())
+            m = got_reply(cl.recv_msg(timeout=rw()))
             w.ctor_res = None
             last_act[c] = time.time()
             ok = isinstance(m, dict) and m["type"] == protocol.MSG_RESULT and (
@@ -496,7 +507,7 @@ def run_case(world, case):
             cl = clients[c]
             meth = {"plain": "boom", "security": "sec", "callback": "cbboom"}[what]
             cl.send(rd.invoke_msg(tgt, meth, (), seq=nextseq(c)))
-            m = got_reply(cl.recv_msg())
+            m = got_reply(cl.recv_msg(timeout=rw()))
             w.ctor_res = None
             last_act[c] = time.time()
             reply = "error" if isinstance(m, dict) and (m["flags"] & protocol.FLAGS_EXCEPTION) else ("result" if isinstance(m, dict) else str(m))
@@ -525,7 +536,7 @@ def run_case(world, case):
                 cl.send(data[:k])
                 if k >= len(data) and mode == "close":
                     # let the complete request be served before the close, so that the run is deterministic
-                    cl.recv_msg()
+                    cl.recv_msg(timeout=rw())
                 (cl.close if mode == "close" else cl.reset)()
                 ended_client.add(c)
             elif how == "malformed":
@@ -561,9 +572,9 @@ def run_case(world, case):
     for c in sorted(live()):
         cl = clients[c]
         cl.send(rd.invoke_msg("S", "op", ("nop", 0), seq=nextseq(c)))
-        m1 = got_reply(cl.recv_msg())
+        m1 = got_reply(cl.recv_msg(timeout=rw()))
         cl.send(rd.invoke_msg("S", "op", ("nop", 0), seq=nextseq(c)))
-        m2 = got_reply(cl.recv_msg())
+        m2 = got_reply(cl.recv_msg(timeout=rw()))
         probes[c] = [m.get("value") if isinstance(m, dict) else str(m) for m in (m1, m2)]
     still = sorted(live())
     pre_teardown = snapshot("probe")
